@@ -188,6 +188,59 @@ def main():
             if not ro and op.get("_must_succeed") and refused and r.get("err") == "readOnly":
                 ck.violation("System.%s refused as read-only after the flag was cleared (%s state)" % (op["op"], c["state"]), rp, tag="sys-refused")
                 break
+    # ---- scheduled rules under keys: a rule added with the right keys runs, when its schedule is due, on behalf of that request
+    # (the running cron of a System fires it about a second later): what its condition reads and its action writes, and the removal
+    # of the one-shot rule afterwards, are the same as in an unprotected twin location (timed scenario, real InternalCron)
+    def sched_case(state, prot):
+        wk = "W1" if prot in ("write", "both") else ""
+        rk = "R1" if prot in ("read", "both") else ""
+        ops = []
+        if wk: ops.append({"op": "addFact", "loc": "P", "id": "", "fact": {"!writeKey": wk}})
+        if rk: ops.append({"op": "addFact", "loc": "P", "id": "", "fact": {"!readKey": rk}, "wk": wk})
+        t1 = {"t": "addfact", "id": "done", "fact": {"by": "schedule"}}
+        t2 = {"t": "addfact", "id": "done2", "fact": {"by": "schedule-with-condition"}}
+        t3 = {"t": "remfact", "id": "victim"}
+        # (rule ids differ between the twins: the built-in cron keys its jobs by rule id alone, finding C15-shared-id)
+        for loc, kw in (("P", {"wk": wk, "rk": rk}), ("U", {})):
+            ops += [dict({"op": "addFact", "loc": loc, "id": "seen", "fact": {"have": "chips"}}, **kw),
+                    dict({"op": "addFact", "loc": loc, "id": "victim", "fact": {"to": "be-removed"}}, **kw),
+                    dict({"op": "addRule", "loc": loc, "id": loc + "s1", "rule": {"schedule": "+1s", "action": {"code": js_of_tmpl(t1), "verif_tmpl": t1}}}, **kw),
+                    dict({"op": "addRule", "loc": loc, "id": loc + "s2", "rule": {"schedule": "+1s", "condition": {"pattern": {"have": "?h"}}, "action": {"code": js_of_tmpl(t2), "verif_tmpl": t2}}}, **kw),
+                    dict({"op": "addRule", "loc": loc, "id": loc + "s3", "rule": {"schedule": "+1s", "action": {"code": js_of_tmpl(t3), "verif_tmpl": t3}}}, **kw)]
+        ops.append({"op": "fireAll", "ms": 2400, "loc": "P"})
+        return {"kind": "c15.sys", "mode": "real", "state": state, "locs": ["P", "U"], "ops": ops, "_prot": prot}
+    def sched_diff(c, o):
+        """None when the twin locations ended up alike; else a description"""
+        outs = (o or {}).get("outs")
+        if not isinstance(outs, list) or len(outs) != len(c["ops"]):
+            return "the scenario failed to run: %s" % canon(o)[:300]
+        for op, r in zip(c["ops"], outs):
+            if r.get("err") is not None:
+                return "%s at %s with the right keys failed: %s" % (op["op"], op.get("loc"), canon(r)[:200])
+        if (outs[-1].get("elapsed_ms") or 0) > 3300 or any((r.get("elapsed_ms") or 0) > 800 for r in outs[:-1]):
+            return "slow"       # the writes did not all happen inside the first second: the schedules are not comparable
+        snap = outs[-1].get("snap") or {}
+        docs = lambda n: {k: canon_fact(v) for k, v in (((snap.get(n) or {}).get("store")) or {}).items() if k not in ("!.writeKey", "!.readKey")}
+        p, u = docs("P"), docs("U")
+        if p != u:
+            return "stored documents of the protected location after the schedules ran: %s; of its unprotected twin: %s" % (canon(p)[:300], canon(u)[:300])
+        if "done" not in u or "done2" not in u or "victim" in u or "Us1" in u:
+            return "unprotected:" + canon(u)[:300]       # the scenario itself did not run as expected (C15's business): not comparable
+        return None
+    sc = [sched_case(st, prot) for st in ("indexed", "linear") for prot in ("write", "read", "both")]
+    for c, o in zip(sc, run_cases(lr.drv, sc)):
+        ck.count({"sched": c["_prot"], "s": c["state"]})
+        d = sched_diff(c, o)
+        tries = 0
+        while d is not None and tries < 3:
+            tries += 1
+            d = sched_diff(c, run_cases(lr.drv, [c])[0])       # timing: believed only when it fails alone, repeatedly
+        lr.stats["scheduled_under_keys"] += 1
+        if d == "slow" or (d or "").startswith("unprotected:"):
+            lr.stats["scheduled_under_keys_not_comparable"] += 1
+        elif d is not None:
+            ck.violation("scheduled rules added with the right keys (%s key, %s state) do not behave as in an unprotected location: %s" % (c["_prot"], c["state"], d),
+                         {"case": {k: v for k, v in c.items() if k != "_prot"}, "impl": o}, tag="sched-keys")
     for c in cases[:2]:
         ck.sample({"state": c["state"], "prot": c["_prot"], "ops": c["ops"][3:9]})
     lr.finish_cov("protection states {none, write key, read key, both, read-only, write key + read-only, disabled} x callers {no key, wrong key, right key} x every operation of the "
